@@ -3,8 +3,10 @@
 package c04
 
 import (
+	"encoding/json"
 	"fmt"
 	"math/rand"
+	"net/url"
 	"sort"
 	"strings"
 
@@ -300,6 +302,35 @@ func CheckFormats(c *harness.Ctx, p *profile.Profile, o Opt) string {
 			return fmt.Sprintf("-traces (value, frames leaf first)\n  reference: %v\n  reported : %v\n%s", want, got, out)
 		}
 	}
+	// ---- topproto: one sample [cum, flat] per entry, identified by function name, file, line, address
+	out, e = run("topproto", nil)
+	if e != "" {
+		return "-topproto failed: " + e
+	}
+	tp, err := profile.ParseData([]byte(out))
+	if err != nil {
+		return fmt.Sprintf("-topproto output is not a profile: %v", err)
+	}
+	var wantTP, gotTP []string
+	for _, en := range rep.Entries {
+		if en.Shown() {
+			k := en.Key
+			wantTP = append(wantTP, fmt.Sprintf("%q %q %d:%d @%x flat=%d cum=%d", k.Name, k.File, k.Line, k.Col, k.Addr, en.FlatV(), en.CumV()))
+		}
+	}
+	for _, smp := range tp.Sample {
+		if len(smp.Location) != 1 || len(smp.Location[0].Line) != 1 || len(smp.Value) != 2 {
+			return fmt.Sprintf("-topproto sample has an unexpected shape: %d locations, values %v", len(smp.Location), smp.Value)
+		}
+		l := smp.Location[0]
+		ln := l.Line[0]
+		gotTP = append(gotTP, fmt.Sprintf("%q %q %d:%d @%x flat=%d cum=%d", ln.Function.Name, ln.Function.Filename, ln.Line, ln.Column, l.Address, smp.Value[1], smp.Value[0]))
+	}
+	sort.Strings(wantTP)
+	sort.Strings(gotTP)
+	if fmt.Sprint(wantTP) != fmt.Sprint(gotTP) {
+		return fmt.Sprintf("-topproto entries (name, file, line:col, address, flat, cum)\n  reference: %v\n  reported : %v", wantTP, gotTP)
+	}
 	// ---- call tree (dot): one node per distinct path
 	if o.CallTree {
 		return ""
@@ -365,6 +396,71 @@ func CheckFormats(c *harness.Ctx, p *profile.Profile, o Opt) string {
 	return ""
 }
 
+// CheckWebTop compares the numbers of the web UI's /top view with the reference.
+func CheckWebTop(c *harness.Ctx, web *drv.Web, p *profile.Profile, o Opt) string {
+	q := url.Values{}
+	q.Set("g", o.Gran)
+	q.Set("si", p.SampleType[o.Index].Type)
+	q.Set("trim", "false")
+	if o.NoInlines {
+		q.Set("noinlines", "t")
+	}
+	if o.Columns {
+		q.Set("showcolumns", "t")
+	}
+	if o.Mean {
+		q.Set("mean", "t")
+	}
+	if len(o.TagRoot) > 0 {
+		q.Set("tagroot", strings.Join(o.TagRoot, ","))
+	}
+	if len(o.TagLeaf) > 0 {
+		q.Set("tagleaf", strings.Join(o.TagLeaf, ","))
+	}
+	u := "/top?" + q.Encode()
+	code, body, pn := web.Get(u)
+	if pn != "" {
+		return "GET " + u + " panicked: " + pn
+	}
+	if code != 200 {
+		return fmt.Sprintf("GET %s -> %d %s", u, code, harness.Trunc(body, 300))
+	}
+	i := strings.LastIndex(body, "makeTopTable(")
+	if i < 0 {
+		return "GET " + u + ": makeTopTable(total, entries) call not found in the page"
+	}
+	dec := json.NewDecoder(strings.NewReader("[" + body[i+len("makeTopTable("):]))
+	// the call's arguments "total, entries" are decoded as the elements of a JSON array
+	var total int64
+	var items []struct {
+		Name      string
+		Flat, Cum int64
+	}
+	if _, err := dec.Token(); err != nil {
+		return "GET " + u + ": " + err.Error()
+	}
+	if err := dec.Decode(&total); err != nil {
+		return fmt.Sprintf("GET %s: total is not a number: %v", u, err)
+	}
+	if err := dec.Decode(&items); err != nil {
+		return fmt.Sprintf("GET %s: entries are not JSON: %v", u, err)
+	}
+	rep := ref.Report(p, o.RefOpts())
+	var got []ref.Row
+	for _, it := range items {
+		got = append(got, ref.Row{Name: it.Name, Flat: it.Flat, Cum: it.Cum})
+	}
+	ref.SortRows(got)
+	c.Stat("reports.webtop", 1)
+	if d := diffRows(rep.Rows(), got); d != "" {
+		return "web /top (" + u + ") " + d
+	}
+	if total != rep.Total {
+		return fmt.Sprintf("web /top (%s) total %d, reference %d", u, total, rep.Total)
+	}
+	return ""
+}
+
 func run(c *harness.Ctx) harness.Result {
 	r := c.Rng
 	var p *profile.Profile
@@ -375,6 +471,14 @@ func run(c *harness.Ctx) harness.Result {
 		}
 	}
 	res := harness.Result{NonTrivial: len(p.Sample) >= 2, Sig: gen.Shape(p)}
+	var web *drv.Web
+	if c.Index%4 == 0 {
+		drv.IsolateEnv(c.Tmp)
+		if w, err := drv.StartWeb(&drv.MapFetcher{Profiles: map[string]*profile.Profile{"p": p}}, []string{"p"}, nil, nil, nil); err == nil {
+			web = w
+			defer web.Close()
+		}
+	}
 	var opts []string
 	for k := 0; k < 3; k++ {
 		o := RandOpt(r, p)
@@ -387,7 +491,11 @@ func run(c *harness.Ctx) harness.Result {
 		if len(o.TagRoot)+len(o.TagLeaf) > 0 {
 			c.Stat("tagroot_tagleaf", 1)
 		}
-		if msg := CheckFormats(c, p, o); msg != "" {
+		msg := CheckFormats(c, p, o)
+		if msg == "" && web != nil {
+			msg = CheckWebTop(c, web, p, o)
+		}
+		if msg != "" {
 			res.Verdict = harness.Violated
 			res.Detail = fmt.Sprintf("options: %s\n%s\nprofile:\n%s", o, harness.Trunc(msg, 3000), harness.Trunc(p.String(), 3000))
 			break
@@ -401,7 +509,7 @@ func init() {
 	harness.Register(&harness.Check{
 		ID:    "C04",
 		Level: "exploration",
-		Rule: "report-class profiles (recursion, inlined multi-line locations shared between samples, empty stacks, unsymbolized and unmapped frames, negative values, 1-3 count-typed sample types, string and unitless numeric labels) x 3 random points of {granularity 5} x noinlines x showcolumns x sample_index x mean x tagroot/tagleaf; every point rendered through the real driver as -top, -tree, -peek=., -dot, -traces and -dot -call_tree (trim=false) and parsed independently; " +
+		Rule: "report-class profiles (recursion, inlined multi-line locations shared between samples, empty stacks, unsymbolized and unmapped frames, negative values, 1-3 count-typed sample types, string and unitless numeric labels) x 3 random points of {granularity 5} x noinlines x showcolumns x sample_index x mean x tagroot/tagleaf; every point rendered through the real driver as -top, -tree, -peek=., -dot, -traces, -topproto and -dot -call_tree (trim=false), and for every fourth profile also through the web UI's /top view and parsed independently; " +
 			"oracle: reference report over the frames view (flat = leaf sum, cum = once per sample, edge = adjacency once per sample, total = sum |v|, mean quotients), compared as multisets of (name, flat, cum) and (caller, callee, weight); legend 'accounting for' = sum of flat shown. non-trivial = at least 2 samples; distinct = profile shape signature",
 		Assumptions: []string{"count-typed values so printed numbers are exact integers", "entries are matched by printable name (names with leading/trailing/double blanks or newlines are left to C18)", "a single source is not merged by pprof, so -traces is compared sample by sample"},
 		Parts:       []harness.Part{{Name: "formats", Quick: 4000, Thor: 150000, Run: run}},
